@@ -55,9 +55,6 @@ def sx(v):
         return "(" + " ".join(["D"] + ["(%s %s)" % (sx(k), sx(x)) for k, x in v.items()]) + ")"
     if isinstance(v, RawSx):
         return v.text
-    if dataclasses.is_dataclass(v) and not isinstance(v, type):
-        return "(" + " ".join(["o", type(v).__name__] + [
-            "(%s %s)" % (f.name, sx(getattr(v, f.name))) for f in dataclasses.fields(v)]) + ")"
     if hasattr(v, "__dict__") and not isinstance(v, type):
         return "(" + " ".join(["o", type(v).__name__] + [
             "(%s %s)" % (k, sx(x)) for k, x in vars(v).items()]) + ")"
